@@ -183,7 +183,7 @@ func (c09) Run(e *Env) {
 		el := time.Since(t0)
 		return (el/cfg.Flush+1)*cfg.Flush - el
 	}
-	nOps := e.Range(4, 40)
+	nOps := e.Range(4, 40*e.Depth())
 	sent := 0
 	for op := 0; op < nOps; op++ {
 		e.Settle()
